@@ -265,5 +265,54 @@ theorem probeAll_ne_panic (b : Bytes) : ∀ (ws : List Word) (s : String), probe
 theorem parseCPU_ne_panic (b : Bytes) (s : String) : parseCPU b ≠ .panic s :=
   probeAll_ne_panic b _ s
 
+theorem count_add_count_le {a b : Nat} (hab : a ≠ b) : ∀ (l : List Nat), l.count a + l.count b ≤ l.length
+  | [] => by simp
+  | x :: l => by
+    have ih := count_add_count_le hab l
+    simp only [List.count_cons, List.length_cons]
+    by_cases h1 : x = a
+    · have h2 : ¬ x = b := by intro h; exact hab (h1.symm.trans h)
+      simp [h1] at ih ⊢
+      have : (if a = b then 1 else 0) = 0 := by simp [hab]
+      omega
+    · by_cases h2 : x = b
+      · simp [h2] at ih ⊢
+        have hba : ¬ b = a := fun h => hab h.symm
+        simp [hba]
+        omega
+      · simp [h1, h2]
+        omega
+
+theorem secondAddrs_length : ∀ (l : List CPUSample) (r : List Nat), secondAddrs l = .ok r → r.length ≤ l.length
+  | [], r, h => by simp [secondAddrs] at h; subst h; simp
+  | x :: rest, r, h => by
+    rw [secondAddrs] at h
+    cases hr : secondAddrs rest with
+    | panic e => rw [hr] at h; simp at h
+    | err e => rw [hr] at h; simp at h
+    | ok r0 =>
+      rw [hr] at h
+      have ih := secondAddrs_length rest r0 hr
+      simp only [Outcome.bind_ok] at h
+      split at h
+      · cases ha : elemAt x.addrs 1 with
+        | panic e => rw [ha] at h; simp at h
+        | err e => rw [ha] at h; simp at h
+        | ok a => rw [ha] at h; simp [pure] at h; subst h; simp; omega
+      · simp [pure] at h; subst h; simp; omega
+
+/-- at most one address can reach the removal threshold `len - len/32`: the order in which Go
+ranges over the map `addr1` cannot influence which frame is stripped. -/
+theorem frame_candidate_unique (seconds : List Nat) (n : Nat) (hlen : seconds.length ≤ n) (a b : Nat)
+    (ha : a ∈ seconds) (hca : seconds.count a ≥ n - n / 32) (hcb : seconds.count b ≥ n - n / 32) : a = b := by
+  apply Classical.byContradiction
+  intro hab
+  have h := count_add_count_le hab seconds
+  have hn : n = 0 := by omega
+  subst hn
+  have : seconds = [] := List.eq_nil_of_length_eq_zero (by omega)
+  subst this
+  simp at ha
+
 end LegacyCPU
 end PV
